@@ -33,6 +33,13 @@ Connection level (what production runs):
   `watch_detects_change_strings_partial` — on the concrete store that covers every change in which
   the key is a string or missing before or after.  The full statement
   `C05_watch_detects_change` (all key types) is REFUTED: `watch_nonstring_counterexample`.
+* boundary theorems (finding-absorption audit): `exec_isolated_of_no_foreign_step`,
+  `exec_head_slot`, `exec_isolated_of_foreign_before_first_access`,
+  `not_isolated_only_through_foreign_step` (EXEC can only fail to be atomic through a foreign
+  command served after its first store access); `exec_aborts_iff_partial` (nil ⇔ some GET-reply
+  snapshot differs: no spurious abort, no missed GET-visible change); `watch_detects_iff` /
+  `exec_proceeds_on_list_change` (the snapshot misses a change ⇔ list at WATCH time and a
+  different list at EXEC time).
 * decision table `table_*`.
 
 Executor level (`CommandExecutor::execute`, simulation path) — all **full**:
@@ -241,6 +248,67 @@ theorem exec_atomic_partial [DecidableEq σ] (B : Backend σ κ γ ρ) (sched : 
     rw [noInterleaving_flatten r1, r2, r3]; rfl
   · simp only [if_true]
     rw [noInterleaving_flatten c1]; rfl
+
+/-! ### the boundary of isolation: where a foreign command must sit to be visible -/
+
+/-- `exec_atomic_partial` under the name the audit uses: no foreign command scheduled inside (or
+    around) the EXEC ⇒ the outcome is the single serial outcome `serialExec [] []` (watch check and
+    consecutive run in one piece) -/
+theorem exec_isolated_of_no_foreign_step [DecidableEq σ] (B : Backend σ κ γ ρ)
+    (sched : List (List γ)) (t : ConnTxn κ γ ρ) (s : σ) (hin : t.inTxn = true)
+    (herr : t.errors = false) (hq : NoInterleaving sched) :
+    ((step B sched t s .exec).2.1, (step B sched t s .exec).2.2) = serialExec B t s [] [] := by
+  have h := exec_atomic_partial B sched t s hin herr hq
+  rw [noInterleaving_flatten hq] at h
+  simpa [splits] using h
+
+/-- foreign commands served BEFORE EXEC's first store access are the same as foreign commands
+    served before the EXEC -/
+theorem exec_head_slot (B : Backend σ κ γ ρ) (a : List γ) (tl : List (List γ))
+    (t : ConnTxn κ γ ρ) (s : σ) (hin : t.inTxn = true) (herr : t.errors = false) :
+    step B (a :: tl) t s .exec = step B ([] :: tl) t (foreign B s a) .exec := by
+  simp only [step, hin, herr, if_true, Bool.false_eq_true, if_false]
+  cases hw : t.watched with
+  | cons p rest => obtain ⟨k, old⟩ := p; simp [checkWatch, foreign_nil]
+  | nil =>
+    cases hqq : t.queue with
+    | cons c cs => simp [checkWatch, runQueue, foreign_nil]
+    | nil => simp [checkWatch, runQueue, foreign_append]
+
+theorem mem_splits_full {α : Type} (l : List α) : (l, []) ∈ splits l := by
+  simp only [splits, List.mem_map, List.mem_range]
+  exact ⟨l.length, by omega, by simp⟩
+
+/-- **boundary of `C05_exec_atomic`**: if every foreign command of the schedule is served before
+    EXEC's first store access (slot 0), EXEC is atomic — the outcome is the serial outcome "all
+    foreign commands first" -/
+theorem exec_isolated_of_foreign_before_first_access [DecidableEq σ] (B : Backend σ κ γ ρ)
+    (sched : List (List γ)) (t : ConnTxn κ γ ρ) (s : σ) (hin : t.inTxn = true)
+    (herr : t.errors = false) (hq : NoInterleaving sched.tail) :
+    ((step B sched t s .exec).2.1, (step B sched t s .exec).2.2) ∈
+      (splits sched.flatten).map (fun p => serialExec B t s p.1 p.2) := by
+  cases sched with
+  | nil => exact exec_atomic_partial B [] t s hin herr noInterleaving_nil
+  | cons a tl =>
+    have htl : NoInterleaving tl := hq
+    have hq' : NoInterleaving ([] :: tl) := by
+      simp only [NoInterleaving, List.all_cons, List.isEmpty_nil, Bool.true_and]; exact htl
+    rw [exec_head_slot B a tl t s hin herr,
+      exec_isolated_of_no_foreign_step B ([] :: tl) t (foreign B s a) hin herr hq']
+    have hf : (a :: tl).flatten = a := by simp [noInterleaving_flatten htl]
+    rw [hf]
+    refine List.mem_map.mpr ⟨(a, []), mem_splits_full a, ?_⟩
+    rfl
+
+/-- **EXEC can only fail to be atomic through a foreign command served after its first store
+    access**: a non-serializable outcome implies that some slot ≥ 1 of the schedule is non-empty -/
+theorem not_isolated_only_through_foreign_step [DecidableEq σ] (B : Backend σ κ γ ρ)
+    (sched : List (List γ)) (t : ConnTxn κ γ ρ) (s : σ) (hin : t.inTxn = true)
+    (herr : t.errors = false)
+    (hns : ((step B sched t s .exec).2.1, (step B sched t s .exec).2.2) ∉
+      (splits sched.flatten).map (fun p => serialExec B t s p.1 p.2)) :
+    ¬ NoInterleaving sched.tail :=
+  fun hq => hns (exec_isolated_of_foreign_before_first_access B sched t s hin herr hq)
 
 theorem run_append (B : Backend σ κ γ ρ) (a b : List (Input κ γ × List (List γ))) :
     ∀ (t : ConnTxn κ γ ρ) (s : σ),
@@ -506,6 +574,26 @@ theorem watch_detects_change_partial (B : Backend σ κ γ ρ) (sched : List (Li
   rfl
 
 
+/-- **exact boundary of the WATCH abort** (nobody interferes during EXEC): EXEC answers nil iff
+    the GET reply of some watched key differs from its snapshot — no spurious abort, no missed
+    GET-visible change -/
+theorem exec_aborts_iff_partial (B : Backend σ κ γ ρ) (sched : List (List γ)) (t : ConnTxn κ γ ρ)
+    (s : σ) (hin : t.inTxn = true) (herr : t.errors = false) (hq : NoInterleaving sched) :
+    (step B sched t s .exec).2.2 = .nil ↔ ∃ p ∈ t.watched, B.getReply s p.1 ≠ p.2 := by
+  constructor
+  · intro h
+    false_or_by_contra
+    rename_i hno
+    have hw : ∀ p ∈ t.watched, B.getReply s p.1 = p.2 := by
+      intro p hp
+      false_or_by_contra
+      rename_i hne
+      exact hno ⟨p, hp, hne⟩
+    rw [(exec_equals_sequential_partial B sched t s hin herr hq hw).1] at h
+    simp at h
+  · rintro ⟨⟨k, old⟩, hm, hd⟩
+    rw [watch_detects_change_partial B sched t s k old hin herr hq hm hd]
+
 /-! ### WATCH … MULTI … EXEC as a trace, with the other clients' commands between the inputs -/
 
 /-- an event seen by the store: an input of the modelled connection (with the other clients'
@@ -637,6 +725,43 @@ theorem get_reply_faithful (s0 s : KV.Store) (k : Nat) (hv : NMap.get s k ≠ NM
     | none => cases v0 <;> simp
     | some v1 =>
       cases v0 <;> cases v1 <;> simp_all
+
+/-- the key holds a list -/
+def isList (s : KV.Store) (k : Nat) : Bool := !notList s k
+
+/-- **exact characterisation of what the GET-reply snapshot sees** (concrete store): the snapshot
+    comparison detects a change of the value of `k` between `s0` (WATCH) and `s` (EXEC) iff the
+    value differs and the key is not a list at BOTH moments.  Invisible transitions are exactly
+    list → different list (and, in the real executor, any non-string type → any non-string value:
+    the GET reply is the constant WRONGTYPE error); every transition that involves a string or a
+    missing key on either side — string→string', string→missing, missing→string, string→list,
+    list→string, missing→list, list→missing — is detected. -/
+theorem watch_detects_iff (s0 s : KV.Store) (k : Nat) :
+    KV.backend.getReply s k ≠ KV.backend.getReply s0 k ↔
+      (NMap.get s k ≠ NMap.get s0 k ∧ ¬ (isList s0 k = true ∧ isList s k = true)) := by
+  simp only [KV.backend, KV.backendWith, KV.execWith, isList, notList]
+  cases h0 : NMap.get s0 k with
+  | none =>
+    cases h1 : NMap.get s k with
+    | none => simp
+    | some v1 => cases v1 <;> simp
+  | some v0 =>
+    cases h1 : NMap.get s k with
+    | none => cases v0 <;> simp
+    | some v1 => cases v0 <;> cases v1 <;> simp
+
+/-- hence, with nobody interfering during EXEC, a watched key whose value changed is missed
+    exactly when it was a list at WATCH time and is a (different) list at EXEC time — and all
+    other snapshots still match -/
+theorem exec_proceeds_on_list_change (t : ConnTxn Nat KV.Cmd KV.Rep) (s0 s : KV.Store) (k : Nat)
+    (hin : t.inTxn = true) (herr : t.errors = false)
+    (hw : t.watched = [(k, KV.backend.getReply s0 k)]) :
+    (step KV.backend [] t s .exec).2.2 ≠ .nil ↔
+      (NMap.get s k = NMap.get s0 k ∨ (isList s0 k = true ∧ isList s k = true)) := by
+  rw [Ne, exec_aborts_iff_partial KV.backend [] t s hin herr noInterleaving_nil, hw]
+  simp only [List.mem_singleton, exists_eq_left]
+  rw [watch_detects_iff]
+  by_cases h1 : NMap.get s k = NMap.get s0 k <;> simp [h1]
 
 /-- concrete store: every change of a watched key that is a string or missing before or after
     (set, overwritten, appended, incremented, deleted, created, replaced by a list, a list replaced
